@@ -568,6 +568,59 @@ func genTryDelete(repo, out string) {
 	writeIfChanged(filepath.Join(out, "TryDelete.lean"), b.String())
 }
 
+// funcLitOf: the function literal a constructor like NewPodDefaultFilterFunc returns (`return func(x *T) bool { … }`)
+func funcLitOf(fd *ast.FuncDecl) *ast.FuncLit {
+	if fd == nil || fd.Body == nil || len(fd.Body.List) != 1 {
+		return nil
+	}
+	r, ok := fd.Body.List[0].(*ast.ReturnStmt)
+	if !ok || len(r.Results) != 1 {
+		return nil
+	}
+	fl, _ := r.Results[0].(*ast.FuncLit)
+	return fl
+}
+
+const pinnedAffinityLoop = `for _, term := range unwrapNodeSelectorTerms(pod) { for _, expression := range term.MatchExpressions { if expression.Key != labelKey { continue } if expression.Operator == v1.NodeSelectorOpIn { for _, value := range expression.Values { if value == labelValue { return true } } } } }`
+
+// genFilters: the three attribution filters of pkg/controller/node_group.go
+func genFilters(repo, out string) {
+	ng := parse(filepath.Join(repo, "pkg/controller/node_group.go"))
+	var b strings.Builder
+	b.WriteString("/- GENERATED by /verif/extract from /repo/pkg/controller/node_group.go (the attribution filters) — do not edit. -/\nimport Esc.Gen.Arith\nnamespace Esc.Gen\n\n")
+	total := 0
+	one := func(ctor, leanName, params, doc string, atoms map[string][2]string, calls map[string][][2]string, exists map[string]string) {
+		a := &ar{fn: "boolFn", atoms: atoms, callAtoms: calls, existsAtoms: exists}
+		body := "  false -- not found"
+		if fl := funcLitOf(findFunc(ng, ctor)); fl != nil {
+			a.markInert(fl.Body.List, map[string]bool{})
+			body = a.block(fl.Body.List, env{}, "  ")
+		} else {
+			a.unknown++
+		}
+		b.WriteString(doc + "def " + leanName + " " + params + " : Bool :=\n" + body + "\n\n")
+		total += a.unknown
+	}
+	one("NewPodDefaultFilterFunc", "podDefaultFilter", "(daemon static : Bool) (selectorLen : Int) (affNil nodeAffNil podAffNil antiAffNil : Bool)",
+		"/-- `NewPodDefaultFilterFunc`. `daemon` / `static`: `k8s.PodIsDaemonSet` / `k8s.PodIsStatic`; `affNil` …: the affinity pointers are nil. -/\n",
+		map[string][2]string{
+			"k8s.PodIsDaemonSet(pod)": {"daemon", "B"}, "k8s.PodIsStatic(pod)": {"static", "B"}, "len(pod.Spec.NodeSelector)": {"selectorLen", "I"},
+			"pod.Spec.Affinity == nil": {"affNil", "B"}, "pod.Spec.Affinity.NodeAffinity == nil": {"nodeAffNil", "B"},
+			"pod.Spec.Affinity.PodAffinity == nil": {"podAffNil", "B"}, "pod.Spec.Affinity.PodAntiAffinity == nil": {"antiAffNil", "B"},
+		}, nil, nil)
+	one("NewNodeLabelFilterFunc", "nodeLabelFilter", "(hasKey valueEq : Bool)",
+		"/-- `NewNodeLabelFilterFunc`. `hasKey`: the node has the label key; `valueEq`: its value equals the group's. -/\n",
+		map[string][2]string{"value == labelValue": {"valueEq", "B"}},
+		map[string][][2]string{"node.Labels[labelKey]": {{"", ""}, {"hasKey", "B"}}}, nil)
+	one("NewPodAffinityFilterFunc", "podAffinityFilter", "(daemon selHasKey selValueEq affinityIn : Bool)",
+		"/-- `NewPodAffinityFilterFunc`. `selHasKey` / `selValueEq`: the nodeSelector has the group's key / with the group's value;\n    `affinityIn`: the loop over the required node-affinity terms — which is, textually, the loop of the pinned tree: some match\n    expression on the group's key with operator In lists the group's value — finds one. -/\n",
+		map[string][2]string{"k8s.PodIsDaemonSet(pod)": {"daemon", "B"}, "value == labelValue": {"selValueEq", "B"}},
+		map[string][][2]string{"pod.Spec.NodeSelector[labelKey]": {{"", ""}, {"selHasKey", "B"}}},
+		map[string]string{"loop|" + pinnedAffinityLoop: "affinityIn"})
+	fmt.Fprintf(&b, "def numFiltersUnknown : Nat := %d\n\nend Esc.Gen\n", total)
+	writeIfChanged(filepath.Join(out, "Filters.lean"), b.String())
+}
+
 func genReap(repo, out string) {
 	sd := parse(filepath.Join(repo, "pkg/controller/scale_down.go"))
 	var b strings.Builder
